@@ -7,7 +7,7 @@ PROP = {
         "Render as Display, Part::{text_ref, hole_ref, with_formatter, write}, Write for fmt::Formatter}",
         "alloc: Template::to_owned, Part::to_owned, the Owned representation (hk_emit_std: c16_q_owned_renders_like_borrowed)",
     ],
-    "bounds": "quick: equality 2x2 parts (<= 2 chars per fragment), 3x2 parts (<= 1 char), literal vs 3 parts; render protocol for <= 2 parts; Display rendering of <= 2 parts without values; owned vs borrowed (4 concrete parts, symbolic formatters). thorough adds 2x3, 3x3, symmetric, reflexive, transitive, by_ref and 3-part protocol. Overall: templates of <= 3 parts; text of <= 3 characters over {a, b, U+00E9} split at symbolic character "
+    "bounds": "quick: equality 2x2 parts (<= 2 chars per fragment), 3x2 parts (<= 1 char), literal vs 3 parts; render protocol for <= 2 parts; Display rendering of <= 2 parts without values; owned vs borrowed (4 concrete parts, symbolic formatters). thorough adds 2x3, 3x3, symmetric, reflexive, by_ref and 3-part protocol (transitivity on three symbolic templates, c16_x_tpl_eq_transitive, exceeds the solver memory limit and is not registered; within the bound it follows from the by-meaning oracle: equality <=> equal normal forms). Overall: templates of <= 3 parts; text of <= 3 characters over {a, b, U+00E9} split at symbolic character "
               "boundaries (empty fragments allowed); hole labels from {x, y, empty}; <= 2 properties with keys from the "
               "label pool (duplicates allowed); emit_core built with no features (Literal and Parts representations)",
     "outside": "templates with more than 3 parts (4 concrete parts for the Owned representation); macro-generated templates (tpl!) "
